@@ -3,6 +3,7 @@
 From Coq Require Import NArith ZArith Bool List Lia Reals Lra.
 From Coquelicot Require Import Coquelicot.
 From SC Require Import Num Vec3 VecR Rot Mesh Geometry GeometrySpec Forces ForcesSpec ForcesProofsA ForcesProofsB.
+From SC Require SourceTies.
 Import ListNotations.
 Local Open Scope R_scope.
 
@@ -87,3 +88,9 @@ Theorem internal_forces_translation_invariant :
       (apply_tension NumR LibmRF nodes tensions ka iso V A faces (apply_pressure NumR P faces F0))).
 Proof. exact forces_translation_invariant. Qed.
 Print Assumptions internal_forces_translation_invariant.
+
+(* THE TIE TO THE SOURCE of the vector algebra on which every force routine rests (dot, cross, +, -, scaling, norms, the atomic
+   translate): regenerated from src/math_modules/vec3.{cpp,hpp} on every run and equal to Vec3.v by reflexivity. *)
+Theorem vector_algebra_is_what_the_source_says : SourceTies.vec3_tie.
+Proof. exact SourceTies.vec3_model_is_what_the_source_says. Qed.
+Print Assumptions vector_algebra_is_what_the_source_says.
